@@ -20,6 +20,9 @@ func Emit(out *wh.Out, res *Result) {
 	for _, l := range res.SubStreams() {
 		out.Case(l, "ok")
 	}
+	for _, l := range res.TopicStreams() {
+		out.Case(l, "ok")
+	}
 	out.Case(res.TopTrace(), "ok")
 	out.Add("events", len(res.Events))
 	for _, e := range res.Events {
